@@ -106,7 +106,7 @@ hbin = BUILD + ("/harness-race" if race else "/harness")
 cover = ""
 if os.environ.get("VERIF_COVERDIR"):
     # measurement only (bin/coverage): which statements of dave/jennifer the correspondence runs reach
-    cover = "-cover -coverpkg=github.com/dave/jennifer/jen "
+    cover = "-cover -covermode=atomic -coverpkg=github.com/dave/jennifer/jen,verif/harness "
     hbin += "-cover"
     os.environ["GOCOVERDIR"] = os.environ["VERIF_COVERDIR"]
 rc2, hout = sh("go build %s%s%s-o %s ." % (modflag, race, cover, hbin), cwd=V + "/harness", timeout=1800)
